@@ -25,6 +25,7 @@ type Run struct {
 	Index   int
 	Faults  map[string]int // fault kind -> times it fired (changed an outcome)
 	Probes  map[string]int // "rare condition was hit" counters
+	Maxes   map[string]int64 // maxima of measured quantities (reported in evidence)
 	sig     uint64
 	NonTriv bool
 	Trace   []string
@@ -40,7 +41,7 @@ type Run struct {
 const maxTrace = 400
 
 func newRun(prop string, idx int, t *Tape, kf *KnownFindings, trace bool) *Run {
-	return &Run{T: t, Prop: prop, Index: idx, Faults: map[string]int{}, Probes: map[string]int{},
+	return &Run{T: t, Prop: prop, Index: idx, Faults: map[string]int{}, Probes: map[string]int{}, Maxes: map[string]int64{},
 		sig: 1469598103934665603, known: kf, traceOn: trace}
 }
 
@@ -80,6 +81,13 @@ func (r *Run) Fault(kind string) {
 
 // Probe records that an interesting branch/condition was reached.
 func (r *Run) Probe(name string) { r.Probes[name]++ }
+
+// Max records the maximum of a measured quantity.
+func (r *Run) Max(name string, v int64) {
+	if cur, ok := r.Maxes[name]; !ok || v > cur {
+		r.Maxes[name] = v
+	}
+}
 
 // Advance moves virtual time.
 func (r *Run) Advance(ns int64) { r.NowNs += ns }
